@@ -722,11 +722,11 @@ fn drive(ctx: &Ctx, eng: Eng, quick: u64, thorough: u64) {
 }
 
 fn run02(ctx: &Ctx) {
-    drive(ctx, Eng::Interp, 64_000, 1_600_000);
+    drive(ctx, Eng::Interp, 200_000, 4_000_000);
 }
 
 fn run11(ctx: &Ctx) {
-    drive(ctx, Eng::Cranelift, 9_600, 240_000);
+    drive(ctx, Eng::Cranelift, 32_000, 640_000);
 }
 
 fn replay02(_ctx: &Ctx, _kind: &str, case: &Value) -> Verdict {
